@@ -259,8 +259,41 @@ pub struct Receiver { pub inner: RecvInner }
         r is Err ==> final(sender).inner.sent@ == old(sender).inner.sent@,
 //@@ end
 
+/// awaiting the outcome future of a post (DeliveryFut, unit DELIVFUT)
+pub struct OutcomeS { pub p: u8 }
+impl DeliveryFut {
+    #[verifier::external_body]
+    pub fn await_outcome(self) -> (r: Result<OutcomeS, PostError>) { unimplemented!() }
+}
 impl Transaction {
     pub fn txn_id(&self) -> (r: &TransactionId) ensures *r == self.declared.txn_id { &self.declared.txn_id }
+//@@ fn file=fe2o3-amqp/src/transaction/mod.rs impl=`~TransactionPosting:TransactionBase` name=post_batchable implfuture id=TransactionPosting::post_batchable
+//@@ generics
+//@@ nowhere
+//@@ param sendable : Sendable
+//@@ ret Result<DeliveryFut, PostError>
+//@@ subst `let sendable = sendable.into();` => `` rule=R7
+//@@ spec
+    ensures
+        r is Ok ==> final(sender).inner.sent@ == old(sender).inner.sent@.push(Sent { body: sendable.message.body, settled: sendable.settled,
+            state: Some(DeliveryState::TransactionalState(TransactionalState { txn_id: self.declared.txn_id, outcome: None })), batchable: true }),   // [C18.controller.post-under-this-transaction] a post made THROUGH a transaction carries THAT transaction's id; the batchable variant says so on the wire
+        r is Err ==> final(sender).inner.sent@ == old(sender).inner.sent@,
+//@@ end
+
+//@@ fn file=fe2o3-amqp/src/transaction/mod.rs impl=`~TransactionPosting:TransactionBase` name=post implfuture id=TransactionPosting::post
+//@@ qmark
+//@@ generics
+//@@ nowhere
+//@@ param sendable : Sendable
+//@@ ret Result<OutcomeS, PostError>
+//@@ subst `let sendable = sendable.into();` => `` rule=R7
+//@@ subst `fut }` => `fut.await_outcome() }` rule=R3b
+//@@ spec
+    ensures
+        r is Ok ==> final(sender).inner.sent@ == old(sender).inner.sent@.push(Sent { body: sendable.message.body, settled: sendable.settled,
+            state: Some(DeliveryState::TransactionalState(TransactionalState { txn_id: self.declared.txn_id, outcome: None })), batchable: false }),   // [C18.controller.post-under-this-transaction]
+        final(sender).inner.sent@.len() <= old(sender).inner.sent@.len() + 1,
+//@@ end
 //@@ fn file=fe2o3-amqp/src/transaction/mod.rs impl=`~TransactionRetirement:TransactionBase` name=retire
 //@@ qmark
 //@@ generics
